@@ -1,5 +1,9 @@
 (* Interp/RunLink.v — reference-linking cases (C14):
-     (c14 ENV SCHEMA (order|order-so "ns"...) INLINED (ops OP...))     OP ::= (u V) | (rt V) | (vs NATIVE)
+     (c14 ENV SCHEMA (order|order-so|order-rb "ns"...) INLINED (ops OP...))     OP ::= (u V) | (rt V) | (vs NATIVE)
+     order-rb: SCHEMA and INLINED are REBUILT from their descriptions (UnserializeScope): no scope of the tree went
+     through NewScopeSchema, the whole tree is linked by ONE ApplySelf of the outermost scope — `link_rebuilt` =
+     link_ns None "" on the empty table (Properties/C14.v: C14_rebuilt_lexical, C14_rebuilt_agrees_with_built);
+     the reverse-order run is on the code-built tree (link_build)
    observation (see harness/cmd/harness/c14_scopes.go):
      (r (st LINKS VR) (st LINKS VR)... (rev (st LINKS VR)) (ops O...) (inl O...)) *)
 From Verif Require Import Base.Prelude Base.Str Base.Float Base.GoVal
@@ -78,9 +82,14 @@ Definition run_op14 (e : env) (s : schema) (op : sexp) : sexp :=
    wrapped scope unchanged, so the model of the wrapper is the model of the scope. *)
 Definition strs_of_order (x : sexp) : option (list string) :=
   match x with
-  | Ls (At k :: l) => if String.eqb k "order" || String.eqb k "order-so" then opt_mapM str_of l else None
+  | Ls (At k :: l) => if String.eqb k "order" || String.eqb k "order-so" || String.eqb k "order-rb" then opt_mapM str_of l else None
   | _ => None
   end.
+Definition order_rebuilt (x : sexp) : bool :=
+  match x with Ls (At k :: _) => String.eqb k "order-rb" | _ => false end.
+(* the first linking of a tree: construction through NewScopeSchema, or UnserializeScope's ApplySelf *)
+Definition link_first (rb : bool) (s : schema) : outcome ltab :=
+  if rb then link_rebuilt C14_LFUEL s else link_build C14_LFUEL [] s [].
 
 Definition run_c14_case (x : sexp) : sexp :=
   match x with
@@ -90,10 +99,10 @@ Definition run_c14_case (x : sexp) : sexp :=
           (* the boolean side conditions of the C14 theorems hold for every generated case *)
           if negb (luniq s && luniq si && refs_to_objects e s && refs_to_objects e si && ns_names_ok (e_ext e))
           then bad "c14 side condition" else
-          match link_build C14_LFUEL [] s [] with
-          | Ok lt0 =>
+          match link_first (order_rebuilt ox) s, link_build C14_LFUEL [] s [] with
+          | Ok lt0, Ok ltb =>
               let '(states, fin) := run_order e s order lt0 in
-              let '(rstates, rfin) := run_order e s (rev order) lt0 in
+              let '(rstates, rfin) := run_order e s (rev order) ltb in
               let revx := match rfin with
                           | Some ltr => Ls [At "rev"; s_state s ltr]
                           | None => Ls [At "rev"; At "panic"]
@@ -101,7 +110,7 @@ Definition run_c14_case (x : sexp) : sexp :=
               match fin with
               | Some _ =>
                   let inlr :=
-                    match link_build C14_LFUEL [] si [] with
+                    match link_first (order_rebuilt ox) si with
                     | Ok li0 => match snd (run_order e si order li0) with
                                 | Some _ => Ls (At "inl" :: map (run_op14 e si) ops)
                                 | None => Ls [At "inl"; At "panic"]
@@ -111,8 +120,8 @@ Definition run_c14_case (x : sexp) : sexp :=
                   Ls (At "r" :: s_state s lt0 :: states ++ [revx; Ls (At "ops" :: map (run_op14 e s) ops); inlr])
               | None => Ls (At "r" :: s_state s lt0 :: states ++ [revx; Ls [At "ops"]; Ls [At "inl"]])
               end
-          | Panic _ => Ls [At "r"; At "build-panic"]
-          | _ => Ls [At "r"; At "diverged"]
+          | Panic _, _ | _, Panic _ => Ls [At "r"; At "build-panic"]
+          | _, _ => Ls [At "r"; At "diverged"]
           end
       | _, _, _, _ => bad "c14 case"
       end
